@@ -116,6 +116,8 @@ func ensureBuild(race bool) (string, string) {
 		want = filepath.Join(dir, "sim-race.test")
 	}
 	if _, err := os.Stat(want); err == nil {
+		now := time.Now()
+		os.Chtimes(dir, now, now)
 		return dir, hash
 	}
 	// drop builds of other trees (keep at most two)
@@ -131,7 +133,14 @@ func ensureBuild(race bool) (string, string) {
 		b, _ := os.Stat(old[j])
 		return a.ModTime().Before(b.ModTime())
 	})
-	for len(old) > 1 {
+	// builds of other trees are dropped once they have not been used for a while
+	// (a check running concurrently on another tree state may still need its own)
+	for _, d := range old {
+		if fi, err := os.Stat(d); err == nil && time.Since(fi.ModTime()) > 45*time.Minute {
+			os.RemoveAll(d)
+		}
+	}
+	for len(old) > 6 {
 		os.RemoveAll(old[0])
 		old = old[1:]
 	}
